@@ -36,7 +36,7 @@ FU = 'utils.func_utils'
 
 
 def run(ctx: Ctx):
-  for r in (r1, r2, r3, r4, r5, r6, r7, r8, r9, r10, r11):
+  for r in (r1, r2, r3, r4, r5, r6, r7, r8, r9, r10, r11, r12):
     ctx.guard(r)
 
 
@@ -722,11 +722,46 @@ def r11(ctx: Ctx):
   ctx.floor(rule, 2, n)
 
 
+def r12(ctx: Ctx):
+  rule = 'R-C17-12'
+  ctx.rule(rule, '"a cached call evaluates once and afterwards returns the identical object": when the structural hash of a lazy'
+           ' call is impossible (unhashable arguments: lists, dicts, arrays) the hash falls back to the IDENTITY of the'
+           ' expression — the TypeError handler of __hash__ returns a hash of the id only. A structural fallback (callee,'
+           ' arity, keyword names) puts distinct expressions over unhashable arguments into one bucket, and the cache lookup'
+           ' then compares those arguments with `==`: multi-element arrays raise "truth value ... is ambiguous", equal-looking'
+           ' arguments of different kinds are served each other\'s result')
+  mi = ctx.repo.module(LF)
+  n = 0
+  for ci in mi.classes.values():
+    fi = ci.methods.get('__hash__')
+    if fi is None:
+      continue
+    for h in ast.walk(fi.node):
+      if not (isinstance(h, ast.ExceptHandler) and h.type is not None and 'TypeError' in unparse(h.type)):
+        continue
+      for r_ in ast.walk(h):
+        if isinstance(r_, ast.Return) and r_.value is not None:
+          n += 1
+          names = {unparse(y) for y in ast.walk(r_.value) if isinstance(y, ast.Attribute) and isinstance(y.value, ast.Name) and y.value.id == 'self'}
+          ok = bool(names) and names <= {'self.id', 'self._id'}
+          what = f'{ci.name}.__hash__: unhashable expressions hash by identity'
+          if ok or unparse(r_.value) == 'id(self)':
+            ctx.ok(rule, fi, what, r_)
+          else:
+            ctx.fail(rule, fi, what,
+                     f'`{unparse(r_)[:70]}` in the TypeError fallback of {ci.name}.__hash__ hashes {sorted(names)}: distinct'
+                     ' expressions whose arguments cannot be hashed collide, and the cache lookup falls through to a deep `==`'
+                     ' of those arguments — it raises for arrays and conflates equal-looking arguments', node=r_)
+  ctx.floor(rule, 1, n)
+
+
 from mlmverif.selfcheck import B, OK  # noqa: E402
 
 _L = 'chainables/lazy_fns.py'
 _F = 'utils/func_utils.py'
 VARIANTS = [
+    B('hash-fallback-structural', 'chainables/lazy_fns.py',
+      "    except TypeError:\n      return hash(self.id)\n\n  def __eq__(self, other: Self):", "    except TypeError:\n      return hash((self.value, len(self.args)))\n\n  def __eq__(self, other: Self):", 'R-C17-12'),
     B('revert-lazy-object-eq-without-type-check', 'chainables/lazy_fns.py',
       "    if not isinstance(other, LazyObject):\n      return False\n    if self.id == other.id:", "    if self.id == other.id:", 'R-C17-11'),
     OK('lazy-object-eq-returns-notimplemented', 'chainables/lazy_fns.py',
